@@ -111,7 +111,10 @@ def run_jobs(jobs, tier, use_cache, progress=True, pid=None, known=None):
         return (h, cfg, r)
 
     # heavy first (shortest makespan); cheapest first when hunting for the first counterexample
-    jobs = sorted(jobs, key=lambda j: (j[0]["timeout"], j[0]["weight"])) if FAIL_FAST else sorted(jobs, key=lambda j: -j[0]["weight"])
+    # the queries whose subject the property is come first (a violation is then found, replayed and the check
+    # decided early); inside each group the heavy ones first (shortest makespan)
+    prim = (lambda j: pid is not None and pid in registry.primary_props(j[0], j[1]))
+    jobs = sorted(jobs, key=lambda j: (j[0]["timeout"], j[0]["weight"])) if FAIL_FAST else sorted(jobs, key=lambda j: (not prim(j), -registry.cost(j[0])))
     with cf.ThreadPoolExecutor(max_workers=MAX_JOBS) as ex:
         for res in ex.map(work, jobs):
             if res[2] is not None:
